@@ -612,7 +612,7 @@ package compiler
 //@   property C06 C05
 //@   requires pass != nil && visitor != nil && schema != nil && def.Kind == ast.KindDisjunction
 //@   ensures  leaf: result.1 == nil ==> result.0.Kind == ast.KindScalar || result.0.Kind == ast.KindRef
-//@   ensures  resolves: result.1 == nil && result.0.Kind == ast.KindRef ==> result.0.Ref != nil && visitor.newObjects != nil && visitor.newObjects.records.has(refKey(result.0.Ref.ReferredPkg, result.0.Ref.ReferredType))
+//@   ensures  resolves: result.1 == nil && result.0.Kind == ast.KindRef ==> visitor.newObjects.records.has(refKey(result.0.Ref.ReferredPkg, result.0.Ref.ReferredType))
 //
 // duplicate_object: for schemas of the target package, when the source object exists, an object is
 // registered under the new name whose type is a DEEP copy of the source's type (faithful, and sharing no
@@ -856,3 +856,20 @@ package compiler
 //@     invariant fresh: base(values) != 0 && fresh(values)
 //@     invariant len: len(values) == $i + 1
 //@     invariant members: forall v: int :: 0 <= v && v < len(values) ==> values[v].Type == old(enum.Enum.Values[v].Type) && values[v].Value == old(enum.Enum.Values[v].Value)
+//
+// The registry of objects created by callbacks. That it is a well-formed map while a schema is being
+// visited is a standing assumption (VisitSchema creates it; VisitSchema itself is only partly claimed).
+//@ func (*Visitor).RegisterNewObject
+//@   property C05 C06 C15
+//@   assumes registry: visitor != nil && wf(visitor.newObjects)
+//@   modifies visitor.newObjects.order, visitor.newObjects.records[refKey(object.SelfRef.ReferredPkg, object.SelfRef.ReferredType)], visitor.newObjects.order[len(visitor.newObjects.order)]
+//@   ensures  registered: wf(visitor.newObjects) && visitor.newObjects.records.has(refKey(object.SelfRef.ReferredPkg, object.SelfRef.ReferredType)) && visitor.newObjects.records[refKey(object.SelfRef.ReferredPkg, object.SelfRef.ReferredType)] == object
+//@   ensures  grows: forall k: string :: old(visitor.newObjects.records.has(k)) ==> visitor.newObjects.records.has(k)
+//@   ensures  others: forall k: string :: k != refKey(object.SelfRef.ReferredPkg, object.SelfRef.ReferredType) ==> visitor.newObjects.records.has(k) == old(visitor.newObjects.records.has(k))
+//@   ensures  len: len(visitor.newObjects.order) >= old(len(visitor.newObjects.order)) && len(visitor.newObjects.order) <= old(len(visitor.newObjects.order)) + 1 && (!old(visitor.newObjects.records.has(refKey(object.SelfRef.ReferredPkg, object.SelfRef.ReferredType))) ==> len(visitor.newObjects.order) == old(len(visitor.newObjects.order)) + 1)
+//
+//@ func (*Visitor).HasNewObject
+//@   property C05 C06 C15
+//@   assumes registry: visitor != nil && visitor.newObjects != nil
+//@   modifies nothing
+//@   ensures  result == visitor.newObjects.records.has(refKey(ref.ReferredPkg, ref.ReferredType))
